@@ -394,49 +394,65 @@ func c12Assembly(e *Env) {
 		r.Anchor(rule, rel+"."+recv+"."+name)
 		return nil
 	}
-	// the rebuild functions are found by role: the (single) method of Engine that assigns
-	// allNoRoute / allNoMethod — their private names may change
-	rebuilder := func(fld string) *core.FuncInfo {
-		fv := w.Field("pkg/route", "Engine", fld)
-		var found []*core.FuncInfo
-		for _, fi := range declaredNonTest(w) {
-			if fv == nil || fi.Decl.Body == nil {
-				continue
-			}
-			finfo := fi.Pkg.TypesInfo
-			has := false
-			ast.Inspect(fi.Decl.Body, func(n ast.Node) bool {
-				if as, ok := n.(*ast.AssignStmt); ok {
-					for _, l := range as.Lhs {
-						if usedVar(finfo, l) == fv {
-							has = true
-						}
-					}
-				}
-				return true
-			})
-			if has {
-				found = append(found, fi)
-			}
-		}
-		if len(found) != 1 {
-			r.Anchor(rule, fmt.Sprintf("the one function assigning Engine.%s (found %d)", fld, len(found)))
-			return nil
-		}
-		return found[0]
-	}
+	// the error chains are rebuilt wherever they can change: Engine.Use (after appending to the
+	// root group), NoRoute and NoMethod must (re)assign allNoRoute / allNoMethod — in their own
+	// body or through a helper of the package (two levels); that the value assigned is built by
+	// the chain builder is checked for every assignment below
 	guse := fn("pkg/route", "RouterGroup", "Use")
-	f404, f405 := rebuilder("allNoRoute"), rebuilder("allNoMethod")
-	if guse == nil || f404 == nil || f405 == nil {
+	if guse == nil {
 		return
 	}
-	r404, r405 := f404.Obj, f405.Obj
-	callsIn("pkg/route", "Engine", "Use", guse, r404)
-	callsIn("pkg/route", "Engine", "Use", guse, r405)
-	callsIn("pkg/route", "Engine", "NoRoute", r404)
-	callsIn("pkg/route", "Engine", "NoMethod", r405)
-	callsIn("pkg/route", "Engine", r404.Name(), comb.Obj)
-	callsIn("pkg/route", "Engine", r405.Name(), comb.Obj)
+	// assignPos: position (in fi's body) of the first statement that assigns fld, directly or
+	// through a callee
+	var assignPos func(fi *core.FuncInfo, fld *types.Var, depth int) token.Pos
+	assignPos = func(fi *core.FuncInfo, fld *types.Var, depth int) token.Pos {
+		pos := token.NoPos
+		finfo := fi.Pkg.TypesInfo
+		ast.Inspect(fi.Decl.Body, func(n ast.Node) bool {
+			if pos.IsValid() {
+				return false
+			}
+			switch x := n.(type) {
+			case *ast.AssignStmt:
+				for _, l := range x.Lhs {
+					if usedVar(finfo, l) == fld {
+						pos = x.Pos()
+					}
+				}
+			case *ast.CallExpr:
+				if depth < 2 {
+					if d := w.DeclOf(calleeOf(finfo, x)); d != nil && d.Pkg == fi.Pkg && d != fi && d.Decl.Body != nil && assignPos(d, fld, depth+1).IsValid() {
+						pos = x.Pos()
+					}
+				}
+			}
+			return true
+		})
+		return pos
+	}
+	for _, spec := range []struct {
+		meth, fld string
+		afterUse  bool
+	}{
+		{"Use", "allNoRoute", true}, {"Use", "allNoMethod", true}, {"NoRoute", "allNoRoute", false}, {"NoMethod", "allNoMethod", false},
+	} {
+		fi := w.Func("pkg/route", "Engine", spec.meth)
+		fld := w.Field("pkg/route", "Engine", spec.fld)
+		if fi == nil || fld == nil {
+			r.Anchor(rule, "route.Engine."+spec.meth+" / Engine."+spec.fld)
+			continue
+		}
+		pos := assignPos(fi, fld, 0)
+		okR := pos.IsValid()
+		if okR && spec.afterUse {
+			usePos := token.NoPos
+			for _, c := range funcsCallingIn(fi, func(f *types.Func) bool { return f == guse }) {
+				usePos = c.Pos()
+			}
+			okR = usePos.IsValid() && usePos < pos
+		}
+		r.Check(okR, rule, w.FuncName(fi.Obj)+":rebuilds:"+spec.fld, w.Pos(fi.Decl.Pos()), "Engine."+spec.meth+" rebuilds Engine."+spec.fld, "Engine."+spec.meth+" does not (re)assign Engine."+spec.fld+" (after appending the middleware): the error path keeps a chain without the engine's middleware")
+	}
 	callsIn("pkg/route", "RouterGroup", "Group", comb.Obj)
 	callsIn("pkg/route", "RouterGroup", "handle", comb.Obj)
 	// handle: the combined chain is what is registered
